@@ -24,13 +24,17 @@ def okmap(r, f):
     return {"ok": f(r["ok"])} if "ok" in r else r
 
 
-def df_of_row(row, ty):
+def df_of_row(row, ty, rng=None):
     """protocol row -> the pandas object a user would assign: a DataFrame, or a dict of arrays when
-    the row is ragged (a DataFrame cannot be ragged), or None"""
+    the row is ragged (a DataFrame cannot be ragged), or None.  With `rng`, the table's columns come in
+    another order than the fields every other time (a table names its columns: the order means nothing)"""
     if row is None:
         return None
     tymap = dict(map(tuple, ty))
     d = {}
+    if rng is not None and len(row) > 1 and rng.random() < 0.5:
+        row = list(row)
+        rng.shuffle(row)
     for n, cells in row:
         t = tymap.get(n, "int64")
         d[n] = pd.Series(gen.flat_array(cells, t), dtype=pd.ArrowDtype(TYPES[t]))
@@ -192,7 +196,7 @@ def case_take(ctx, s: Subject):
         fill = gen.rand_row(rng, s.ty, p_missing=0.0)
     ext = s.fresh_ext()
     real = call_real(lambda: colres(ext.take(np.array(idx, dtype=np.int64), allow_fill=allow_fill,
-                                             fill_value=df_of_row(fill, s.ty))))
+                                             fill_value=df_of_row(fill, s.ty, rng))))
     ans = ctx.driver.call("take", col=s.phys, indices=idx, allowFill=allow_fill, fill=fill)
     ctx.case("take", {**s.desc(), "indices": idx, "allow_fill": allow_fill, "fill": fill}, real, mcol(ans["model"]),
              mcol(ans["spec"]), hyp=s.hyp, features=s.features + (f"fill={allow_fill}", f"positions={shape}"), nontrivial=s.nontrivial())
@@ -240,11 +244,11 @@ def case_setitem(ctx, s: Subject, ragged=False):
     if scalar:
         row = mkrow()
         value = {"scalar": row}
-        pyval = df_of_row(row, s.ty)
+        pyval = df_of_row(row, s.ty, rng)
     else:
         rows = [mkrow() for _ in range(cnt)]
         value = {"array": rows}
-        pyval = [df_of_row(r, s.ty) for r in rows]
+        pyval = [df_of_row(r, s.ty, rng) for r in rows]
         if rng.random() < 0.5 and rows:
             # as another nested array of the same dtype
             try:
